@@ -53,7 +53,20 @@ CLAIM = dict(
           "the Lean rule when returned, ALL returned arrays are kept and re-checked byte-wise after every later call, "
           "after the harness writes to another returned array and after it writes to the input (a changed result is "
           "the violation array-result-overwritten, shown with the Lean rule's verdict on the new contents and with "
-          "what the array shares memory with: input, other results, converter attributes)."),
+          "what the array shares memory with: input, other results, converter attributes). The same reuse stream "
+          "varies what the API legally accepts (validated, verdict by model + Lean rule): constructor arguments as "
+          "int / bool / IntEnum / numpy.bool_, positional and keyword; scalar values as float, exactly representable "
+          "int (incl. 2^31, 2^32, 2^53, 2^63, 2^64, 2^100), bool, numpy.float64, numpy.int64 / int8 / uint64, Fraction, "
+          "positional and keyword; array inputs as tuple, nested list, range, int32 / bool arrays, memoryview, ndarray "
+          "subclass, empty (0,) and (0,3), numpy scalar, 7-D, float32 / float16; numpy error state 'raise' and "
+          "RuntimeWarning-as-error around calls whose scaled values are finite; the caller edits in place an object it "
+          "passed and passes it again (to the same or a second converter), repeats the very same call, calls with "
+          "faulty arguments (inf, nan, str, None) and goes on using the converter; twins (two converters equal in all "
+          "but sign, width or n_frac) in both orders. Scale stream: arrays of 257 / 65,537 / 131,073 / 10^6 elements "
+          "(five layouts) made of a 48-value block checked against the model, the large result compared with the "
+          "block's (array-ne-scalar-large); formats of 257 - 100,000 bits and integers up to 2^5000 for the scalar "
+          "closures. Every implementation call runs under a CPU-time limit: where the (total) model yields a value a "
+          "call that does not return is the violation did-not-return."),
     design="3/C16",
     note=("Doubles are modelled as (m, e) pairs. PROVED inside the model (no longer trusted): the model's int -> "
           "double conversion is round-to-nearest-even to 53 bits, monotone, idempotent, exact up to 2^53 and for every "
@@ -69,7 +82,19 @@ CLAIM = dict(
           "dtype (the narrowest reading of 'scaled value is still a finite float'). np.longdouble arrays, NaN and "
           "infinite inputs are outside the claim. The model covers the code before and after "
           "fixes/c16-saturate-64bit.diff and before and after fixes/c16-float32-arrays.diff; the harness detects which "
-          "the tree contains (evidence: code_variant)."),
+          "the tree contains (evidence: code_variant). "
+          "HARDENING CHECKLIST - not applicable / left out: rig/type_casts.py has no optional or default parameters, "
+          "returns no generators / iterators, keeps no connection / callback / allocation that can fail (faults = "
+          "exceptions from bad arguments and OverflowError, after which the same closures / converters are used on), "
+          "and takes no identifiers, byte strings or rig objects; set / frozenset / dict views / generators are not "
+          "array-likes (numpy.asarray makes a 0-d object array of them) and NumpyFixToFloatConverter documents NumPy "
+          "arrays only (lists are not divided by a float). numpy ints as n_bits / n_frac are outside the property text "
+          "and TAG-ONLY (reuse_numpy_int_params_differ): e.g. float_to_fp(False, numpy.int32(32), 4) wraps in "
+          "`1 << n_bits`. numpy.float16 / float32 SCALARS as values of float_to_fp / float_to_fix and numpy unsigned "
+          "scalars as words of fix_to_float are kept OUT of the generators pending a decision (they raise "
+          "OverflowError on the unchanged code: fixes/c16-numpy-scalar-arguments.diff). numpy 'under' errors and "
+          "python -O (asserts stripped) are not varied: underflow is a legitimate numpy event for in-domain inputs and "
+          "-O needs another process."),
     technique="Lean 4 theorems over a hand-written model + differential correspondence + Lean spec as oracle")
 
 THEOREMS = ["dtypes_cover", "fp_total", "fp_sat", "spec_unique", "spec_range", "fp_range", "fp_lsb", "fp_mono",
@@ -99,7 +124,12 @@ RULE = ("one case = one format (signed, n_bits, n_frac) with 6-24 doubles built 
         "every array-taking call is bracketed by a deep snapshot of its input; reuse cases: 1-3 converter objects (array "
         "converters, kept scalar / deprecated closures, twin formats U(N-1)/S(N) in both orders) created once after "
         "reloading rig.type_casts, 3-7 calls (65% same shape and container as the first), all results kept and "
-        "re-checked after every later call, after writing to 0-2 returned arrays and to 0-2 inputs. "
+        "re-checked after every later call, after writing to 0-2 returned arrays and to 0-2 inputs; per converter: "
+        "argument kinds (int / 0-1 / IntEnum / numpy.bool_ / numpy ints [tag-only]) and keyword construction (25%); per "
+        "call: value kind or container kind (30-35%), keyword call (20%), numpy error state raise / warnings-as-errors "
+        "(40%, applied when every scaled value is finite), then with 18% the same object again (70% edited in place) "
+        "and with 10% a faulty call; 10% twin converters; scale cases: one per size 257 / 65,537 / 131,073 / 10^6 plus "
+        "2 (36 thorough) random ones, 6 (60) wide-format / huge-integer scalar cases. "
         "A case is non-trivial when it contains both a saturating value and an in-range value whose scaled value has a "
         "fractional part (conversion and narrow cases), an in-range integer of more than 24 bits (inverse cases), or a value "
         "that saturates in an earlier step and not in a later one (sequence cases), or one converter called twice on the same "
@@ -165,11 +195,32 @@ def exc_name(e):
     return "Other:" + type(e).__name__
 
 
-def call(f, *a):
+_HANGS = [0]
+CPU_LIMIT = [5.0]          # seconds of CPU time per implementation call (a normal call takes micro- to milliseconds;
+#                            the 10^6-element scale cases some tens of milliseconds); 1 s after 6 hangs in one run,
+#                            0.1 s after 12, and after 30 the remaining calls are not made at all
+
+
+def call(f, *a, **kw):
+    """one call of the implementation: value, exception class, or DidNotReturn.  Every function of the Lean
+    model is total (structural recursion only), so a call that is still running after the limit is reported
+    (`did-not-return`) wherever the model yields a value, and is a mismatch where the model yields an error."""
+    from harness import common
+    if _HANGS[0] >= 30:
+        # keep the run short: the verdict (did-not-return, with the first concrete inputs) is already determined
+        return {"err": "DidNotReturn", "where": "not called: 30 calls did not return earlier in this run"}
     try:
-        return {"ok": f(*a)}
+        with common.cpu_limit(CPU_LIMIT[0] if _HANGS[0] < 6 else 1.0 if _HANGS[0] < 12 else 0.1):
+            return {"ok": f(*a, **kw)}
+    except common.ImplHang as e:
+        _HANGS[0] += 1
+        return {"err": "DidNotReturn", "where": str(e)}
     except Exception as e:  # mapped to a small enum
         return {"err": exc_name(e)}
+
+
+def exc_key(a, default="exception-in-domain"):
+    return "did-not-return" if a.get("err") == "DidNotReturn" else default
 
 
 # ---------------------------------------------------------------- generators
@@ -427,8 +478,10 @@ def impl_narrow(case):
 # ---------------------------------------------------------------- implementation side
 def snap(obj):
     """deep snapshot of a caller-side input (ndarray or list) taken before a conversion"""
-    if isinstance(obj, list):
-        return {"list": [(type(x).__name__, repr(x)) for x in obj]}
+    if isinstance(obj, (list, tuple, range, memoryview)) or not hasattr(obj, "tobytes") or not hasattr(obj, "strides"):
+        if isinstance(obj, memoryview):
+            return {"list": ["memoryview", obj.tobytes(), obj.format, obj.shape, obj.readonly]}
+        return {"list": [type(obj).__name__, repr(obj)]}
     base = obj.base if hasattr(obj.base, "tobytes") else None
     return {"bytes": obj.tobytes(), "dtype": str(obj.dtype), "shape": tuple(obj.shape), "strides": tuple(obj.strides),
             "writeable": bool(obj.flags.writeable), "values": obj.copy(),
@@ -439,7 +492,7 @@ def snap_diff(obj, before):
     """None when the input object is exactly as it was, else a description of what changed"""
     now = snap(obj)
     if "list" in before:
-        return None if now == before else "the list %r became %r" % (before["list"], now["list"])
+        return None if now == before else "the %s %r became %r" % (before["list"][0], before["list"][1:], now["list"][1:])
     for k in ("dtype", "shape", "strides", "writeable"):
         if now[k] != before[k]:
             return "%s changed from %r to %r" % (k, before[k], now[k])
@@ -681,7 +734,7 @@ def judge_conv(ctx, c):
             if a != m:
                 if "err" in a and "ok" in m:
                     # the property promises a value here (finite scaled value, accepted format)
-                    ctx.violation("exception-in-domain",
+                    ctx.violation(exc_key(a),
                                   "%s %s raised %s for %r; the rule gives %r" % (
                                       names[name], describe(fmt), a["err"], from_dy(vs[i]), m["ok"]),
                                   sub_case(c, [i]))
@@ -790,7 +843,7 @@ def judge_inv(ctx, c):
             if back is None:
                 ctx.tag("inverse_format_rejected")      # float_to_fp(...) itself raised (n_frac >= 1024)
             elif "err" in back:
-                ctx.violation("exception-in-domain", "float_to_fp%s raised %s on fp_to_float(%d)(%d)" % (
+                ctx.violation(exc_key(back), "float_to_fp%s raised %s on fp_to_float(%d)(%d)" % (
                     describe(fmt), back["err"], fmt["frac"], k), sub_case(c, [i]))
             elif back != {"ok": k}:
                 exact = c["exact"][i]
@@ -985,9 +1038,38 @@ def gen_seq_case(rng):
     return {"kind": "seq", "container": cont, "vs": [to_dy(x) for x in xs], "steps": steps}
 
 
+class _Sub(object):
+    """lazily created trivial ndarray subclass (numpy is imported lazily)"""
+    cls = None
+
+
 def make_container(np, xs, kind):
     if kind == "list":
         return list(xs)
+    if kind == "tuple":
+        return tuple(xs)
+    if kind == "nested":
+        return [list(xs[:len(xs) // 2]), list(xs[len(xs) // 2:])] if len(xs) % 2 == 0 and xs else [list(xs)]
+    if kind == "range":
+        return range(len(xs))                       # the values are 0 .. n-1 whatever xs says
+    if kind == "intarr":
+        return np.array([int(x) for x in xs], dtype=np.int32)
+    if kind == "boolarr":
+        return np.array([bool(x) for x in xs], dtype=np.bool_)
+    if kind == "memview":
+        return memoryview(np.array(xs, dtype=np.float64))
+    if kind == "subclass":
+        if _Sub.cls is None:
+            _Sub.cls = type("ArraySubclass", (np.ndarray,), {})
+        return np.array(xs, dtype=np.float64).view(_Sub.cls)
+    if kind == "empty":
+        return np.zeros((0,), dtype=np.float64)
+    if kind == "empty2d":
+        return np.zeros((0, 3), dtype=np.float64)
+    if kind == "npscalar":
+        return np.float64(xs[0])
+    if kind == "nd7":
+        return np.array(xs, dtype=np.float64).reshape((1, 1, len(xs), 1, 1, 1, 1))
     dt = {"f32": np.float32, "f32_ro": np.float32, "f16": np.float16}.get(kind, np.float64)
     a = np.array(xs, dtype=dt)
     n = len(xs)
@@ -1106,7 +1188,7 @@ def judge_seq(ctx, c):
                 continue
             if a != m:
                 if "err" in a and "ok" in m:
-                    ctx.violation("array-readonly-rejected" if readonly else "exception-in-domain",
+                    ctx.violation(exc_key(a, "array-readonly-rejected" if readonly else "exception-in-domain"),
                                   "%s: NumpyFloatToFixConverter %s raised %s; the rule gives %r for %r" % (
                                       where, describe(fmt), a["err"], m["ok"], from_dy(vs[i])), desc)
                 ctx.mismatch("c16.np_seq", "%s %s value=%r impl=%r model=%r" % (where, describe(fmt), vs[i], a, m), desc)
@@ -1143,7 +1225,7 @@ def judge_seq(ctx, c):
                                       where, sf["frac"], sf["ks"][i], a["ok"], sc["ok"]), desc)
                     break
                 if "err" in a and "ok" in sc:
-                    ctx.violation("exception-in-domain", "%s, then NumpyFixToFloatConverter(%d) raised %s" % (
+                    ctx.violation(exc_key(a), "%s, then NumpyFixToFloatConverter(%d) raised %s" % (
                         where, sf["frac"], a["err"]), desc)
                     break
     # distribution: can an earlier step's saturation be seen by a later step?
@@ -1179,7 +1261,48 @@ def gen_reuse_spec(rng, kind, signed=None, bits=None):
     frac = 0 if r < 0.25 else rng.randrange(0, bits) if r < 0.85 else -rng.randrange(1, 5)
     if kind in ("fix", "fix_float"):
         frac = max(0, min(frac, bits - (1 if signed else 0)))
-    return {"kind": kind, "fmt": {"signed": signed, "bits": bits, "frac": frac}}
+    sp = {"kind": kind, "fmt": {"signed": signed, "bits": bits, "frac": frac}}
+    # how the constructor is called: kind of the integer arguments, positional or keyword
+    r = rng.random()
+    if r < 0.12:
+        sp["pk"] = "intenum"
+    elif r < 0.2:
+        sp["pk"] = "int01"            # signed as 0 / 1, n_frac as True / False where it is 0 / 1
+    elif r < 0.26:
+        sp["pk"] = "npbool"           # signed as numpy.bool_
+    elif r < 0.34:
+        sp["pk"] = rng.choice(["np64", "np32", "npu8"])     # numpy ints: outside the property text, tag only
+    if rng.random() < 0.25:
+        sp["kw"] = True
+    return sp
+
+
+NUMPY_PARAM = ("np64", "np32", "npu8")
+FLOAT_CONTAINERS_EXTRA = ["tuple", "nested", "range", "intarr", "boolarr", "memview", "subclass", "empty", "empty2d",
+                          "npscalar", "nd7", "f32", "f16"]
+VALUE_KINDS_FLOAT = ["int", "bool", "npf64", "npi64", "fraction"]
+VALUE_KINDS_INT = ["bool", "npi64", "npi8", "npu64"]
+EXACT_BIG = [2 ** 31, 2 ** 32, 2 ** 53, 2 ** 63, 2 ** 64, 2 ** 100, -(2 ** 31), -(2 ** 63), -(2 ** 100), 2 ** 31 - 1,
+             2 ** 32 + 1, 2 ** 53 - 1]
+
+
+def twin_of(rng, sp):
+    """a format equal in all but one aspect"""
+    f = dict(sp["fmt"])
+    kind = sp["kind"]
+    which = rng.choice(["signed", "bits", "frac"])
+    if which == "signed":
+        f["signed"] = not f["signed"]
+    elif which == "bits":
+        f["bits"] = rng.choice([b for b in NP_BITS if b != f["bits"]]) if kind in ("np_fix", "np_float") \
+            else max(1, f["bits"] + rng.choice([-1, 1]))
+    else:
+        f["frac"] = f["frac"] + rng.choice([-1, 1])
+    if kind in ("fix", "fix_float"):
+        f["frac"] = max(0, min(f["frac"], f["bits"] - (1 if f["signed"] else 0)))
+    t = dict(sp)
+    t["fmt"] = f
+    return t
 
 
 def gen_reuse_case(rng):
@@ -1187,6 +1310,7 @@ def gen_reuse_case(rng):
     same-shaped and differently-shaped inputs; every result is kept and re-checked after every later
     call, after writing to another result and after writing to the input"""
     r = rng.random()
+    twins = False
     if r < 0.35:
         convs = [gen_reuse_spec(rng, "np_fix")]
         if rng.random() < 0.3:
@@ -1203,9 +1327,16 @@ def gen_reuse_case(rng):
         convs = [a, b] if rng.random() < 0.5 else [b, a]
         if rng.random() < 0.3:
             convs.append(gen_reuse_spec(rng, rng.choice(["fp", "fp_float"])))
-    else:
+    elif r < 0.9:
         convs = [gen_reuse_spec(rng, rng.choice(["fp", "fix", "fp_float", "fix_float"]))
                  for _ in range(rng.choice([1, 2, 3]))]
+    else:
+        # twins: two converters equal in all but one aspect (sign, width or n_frac), in either order
+        a = gen_reuse_spec(rng, rng.choice(["np_fix", "np_fix", "fp", "fix", "fix_float", "np_float", "fp_float"]))
+        convs = [a, twin_of(rng, a)]
+        if rng.random() < 0.5:
+            convs.reverse()
+        twins = True
     n0 = rng.choice([2, 4, 6])
     c0 = rng.choice(REUSE_CONTAINERS)
     calls = []
@@ -1229,9 +1360,63 @@ def gen_reuse_case(rng):
             call_["ks"] = gen_ints(rng, fmt, n)
         else:   # fix_float: unsigned words
             call_["ks"] = [k % 2 ** fmt["bits"] for k in gen_ints_in(rng, fmt, n)]
+        # argument kinds, calling convention, numpy error state of this call
+        if sp["kind"] == "np_fix" and rng.random() < 0.3:
+            call_["cont"] = rng.choice(FLOAT_CONTAINERS_EXTRA)
+            if call_["cont"] in ("intarr", "boolarr"):
+                call_["vs"] = [to_dy(float(x)) for x in
+                               ([rng.choice([0, 1]) for _ in range(n)] if call_["cont"] == "boolarr" else
+                                [rng.choice([0, 1, -1, 127, 128, -129, 255, 256, 32767, 32768, -32769, 65536,
+                                             2 ** 31 - 1, -(2 ** 31), rng.randrange(-70000, 70000)]) for _ in range(n)])]
+            elif call_["cont"] in ("f32", "f16"):
+                prec = call_["cont"]
+                ys = [y for y in (to_narrow(from_dy(p), prec) for p in call_["vs"]) if y is not None] or [0.5]
+                call_["vs"] = [to_dy(y) for y in (ys * n)[:n]]
+        elif sp["kind"] in ("fp", "fix") and rng.random() < 0.35:
+            vk = rng.choice(VALUE_KINDS_FLOAT)
+            call_["vk"] = vk
+            if vk == "bool":
+                call_["vs"] = [to_dy(float(rng.choice([0, 1]))) for _ in range(n)]
+            elif vk in ("int", "npi64"):
+                lo, hi = fmt_range(fmt)
+                pool = [0, 1, -1, 3, -3, 100, hi >> max(fmt["frac"], 0), (hi >> max(fmt["frac"], 0)) + 1,
+                        (lo >> max(fmt["frac"], 0)) - 1] + (EXACT_BIG if vk == "int" else EXACT_BIG[:4])
+                call_["vs"] = [to_dy(float(rng.choice(pool))) for _ in range(n)]
+        elif sp["kind"] in ("fp_float", "fix_float") and rng.random() < 0.35:
+            vk = rng.choice(VALUE_KINDS_INT if sp["kind"] == "fp_float" else ["bool"])
+            call_["vk"] = vk
+            if vk == "bool":
+                call_["ks"] = [rng.choice([0, 1]) for _ in range(n)]
+            elif vk == "npi8":
+                call_["ks"] = [rng.randrange(-128, 128) for _ in range(n)]
+            elif vk == "npi64":
+                call_["ks"] = [rng.choice([0, -1, 2 ** 63 - 1, -(2 ** 63), 2 ** 53 + 1, rng.randrange(-2 ** 62, 2 ** 62)])
+                               for _ in range(n)]
+            elif vk == "npu64":
+                call_["ks"] = [rng.choice([0, 1, 2 ** 64 - 1, 2 ** 63, 2 ** 53 + 1, rng.randrange(2 ** 64)])
+                               for _ in range(n)]
+        elif sp["kind"] == "np_float" and rng.random() < 0.2:
+            call_["cont"] = rng.choice(["boolarr", "subclass", "empty", "npscalar", "f2d", "ro"])
+            if call_["cont"] == "boolarr":
+                call_["ks"] = [rng.choice([0, 1]) for _ in range(n)]
+        if rng.random() < 0.2:
+            call_["kw"] = True
+        r = rng.random()
+        if r < 0.2:
+            call_["es"] = "warn_error"      # RuntimeWarning turned into an exception, numpy errors warn
+        elif r < 0.4:
+            call_["es"] = "raise"           # np.errstate(over / invalid / divide = "raise")
         calls.append(call_)
+        # the caller edits the object it passed and passes it AGAIN / repeats the very same call / a faulty call
+        r = rng.random()
+        if r < 0.18 and sp["kind"] in ("np_fix", "np_float") and call_.get("cont") not in (
+                "tuple", "range", "memview", "npscalar", "empty", "empty2d", "ro"):
+            calls.append({"c": rng.choice([i for i, q in enumerate(convs) if q["kind"] == sp["kind"]]),
+                          "again": len(calls) - 1, "edit": rng.random() < 0.7})
+        elif r < 0.28:
+            calls.append({"c": ci, "fault": rng.choice(["inf", "-inf", "nan", "str", "none", "list_of_str"])})
     k = len(calls)
-    return {"kind": "reuse", "convs": convs, "calls": calls,
+    return {"kind": "reuse", "convs": convs, "calls": calls, "twins": twins,
             "mutate_result": sorted(rng.sample(range(k), rng.choice([0, 0, 1, 1, 2]))),
             "mutate_input": sorted(rng.sample(range(k), rng.choice([0, 1, 1, 2])))}
 
@@ -1246,6 +1431,12 @@ def gen_ints_in(rng, fmt, n):
 
 
 def int_container(np, ks, kind, dt):
+    if kind == "boolarr":
+        return np.array([bool(k) for k in ks], dtype=np.bool_)
+    if kind == "empty":
+        return np.zeros((0,), dtype=dt)
+    if kind == "npscalar":
+        return dt(ks[0])
     a = np.array(ks, dtype=dt)
     n = len(ks)
     if kind == "c2d":
@@ -1258,7 +1449,92 @@ def int_container(np, ks, kind, dt):
         a = b[::2]
     elif kind == "ro":
         a.flags.writeable = False
+    elif kind == "subclass":
+        if _Sub.cls is None:
+            _Sub.cls = type("ArraySubclass", (np.ndarray,), {})
+        a = a.view(_Sub.cls)
     return a
+
+
+class _Enum(object):
+    cache = {}
+
+
+def int_arg(np, v, pk, role):
+    """the integer constructor argument v in the kind pk (role: 'signed' / 'bits' / 'frac')"""
+    if role == "signed":
+        if pk == "int01":
+            return 1 if v else 0
+        if pk == "npbool":
+            return np.bool_(v)
+        return v
+    if pk == "intenum":
+        import enum
+        if v not in _Enum.cache:
+            _Enum.cache[v] = enum.IntEnum("Param", {"member": v}).member
+        return _Enum.cache[v]
+    if pk == "int01" and role == "frac" and v in (0, 1):
+        return bool(v)
+    if pk == "np64":
+        return np.int64(v)
+    if pk == "np32" and -2 ** 31 <= v < 2 ** 31:
+        return np.int32(v)
+    if pk == "npu8" and 0 <= v < 256:
+        return np.uint8(v)
+    return v
+
+
+def value_arg(np, x, vk):
+    """the scalar argument x (an exactly representable number) in the kind vk"""
+    from fractions import Fraction as Fr
+    if vk == "int":
+        return int(x)
+    if vk == "bool":
+        return bool(x)
+    if vk == "npf64":
+        return np.float64(x)
+    if vk == "npi64":
+        return np.int64(int(x)) if -2 ** 63 <= x < 2 ** 63 else int(x)
+    if vk == "npi8":
+        return np.int8(int(x)) if -128 <= x < 128 else int(x)
+    if vk == "npu64":
+        return np.uint64(int(x)) if 0 <= x < 2 ** 64 else int(x)
+    if vk == "fraction":
+        return Fr(x)
+    return x
+
+
+class _Env(object):
+    """numpy error state / warning filter around one call"""
+
+    def __init__(self, np, es):
+        import warnings
+        self.np, self.es, self.w = np, es, warnings.catch_warnings()
+
+    def __enter__(self):
+        import warnings
+        self.w.__enter__()
+        if self.es == "warn_error":
+            warnings.simplefilter("ignore")
+            warnings.simplefilter("error", RuntimeWarning)
+            self.e = self.np.errstate(over="warn", invalid="warn", divide="warn", under="ignore")
+        elif self.es == "raise":
+            warnings.simplefilter("ignore")
+            self.e = self.np.errstate(over="raise", invalid="raise", divide="raise", under="ignore")
+        else:
+            warnings.simplefilter("ignore")
+            self.e = self.np.errstate(all="ignore")
+        self.e.__enter__()
+
+    def __exit__(self, *a):
+        self.e.__exit__(*a)
+        self.w.__exit__(*a)
+        return False
+
+
+def scaled_finite(vs, frac):
+    """every scaled value is a finite double (conservative): only then may numpy's error state be 'raise'"""
+    return all(p[0] == 0 or abs(p[0]).bit_length() + p[1] + frac < 1020 for p in vs) and -1000 < frac < 1000
 
 
 def impl_reuse(case):
@@ -1271,15 +1547,20 @@ def impl_reuse(case):
     with np.errstate(all="ignore"):
         for sp in case["convs"]:
             f = sp["fmt"]
-            s, b, fr = f["signed"], f["bits"], f["frac"]
-            mk = {"np_fix": lambda: tc.NumpyFloatToFixConverter(s, b, fr),
-                  "np_float": lambda: tc.NumpyFixToFloatConverter(fr),
-                  "fp": lambda: tc.float_to_fp(s, b, fr), "fix": lambda: tc.float_to_fix(s, b, fr),
-                  "fp_float": lambda: tc.fp_to_float(fr), "fix_float": lambda: tc.fix_to_float(s, b, fr)}[sp["kind"]]
-            r = call(mk)
+            pk = sp.get("pk")
+            s, b, fr = int_arg(np, f["signed"], pk, "signed"), int_arg(np, f["bits"], pk, "bits"), \
+                int_arg(np, f["frac"], pk, "frac")
+            kw = sp.get("kw")
+            full = dict(signed=s, n_bits=b, n_frac=fr)
+            mk = {"np_fix": (tc.NumpyFloatToFixConverter, full), "np_float": (tc.NumpyFixToFloatConverter, dict(n_frac=fr)),
+                  "fp": (tc.float_to_fp, full), "fix": (tc.float_to_fix, full),
+                  "fp_float": (tc.fp_to_float, dict(n_frac=fr)), "fix_float": (tc.fix_to_float, full)}[sp["kind"]]
+            order = [k for k in ("signed", "n_bits", "n_frac") if k in mk[1]]
+            r = call(mk[0], **mk[1]) if kw else call(mk[0], *[mk[1][k] for k in order])
             objs.append(r)
             out["convs"].append("ok" if "ok" in r else r)
         kept = []          # (call index, result ndarray, bytes when returned / after our own write)
+        passed = {}        # call index -> the input object of that call (the caller keeps it)
 
         def recheck(event):
             for (i, res, ref) in kept:
@@ -1290,54 +1571,112 @@ def impl_reuse(case):
 
         def canon_list(res):
             flat = np.asarray(res).reshape(-1).tolist()
-            return [{"ok": int(v)} if isinstance(v, int) else {"ok": canon_float(v)} for v in flat]
+            return [{"ok": int(v)} if isinstance(v, int) and not isinstance(v, bool) else {"ok": canon_float(v)}
+                    for v in flat]
 
         for j, cl in enumerate(case["calls"]):
             sp = case["convs"][cl["c"]]
             kind = sp["kind"]
+            fmt = sp["fmt"]
             oc = {"changed": None, "alias": []}
             out["calls"].append(oc)
             mk = objs[cl["c"]]
+            arrayish = kind in ("np_fix", "np_float")
+            argname = "values" if arrayish else "value"
+            if "fault" in cl:
+                # a call that is expected to fail (or to return rubbish); only what happens AFTERWARDS is judged
+                bad = {"inf": float("inf"), "-inf": float("-inf"), "nan": float("nan"), "str": "0.5", "none": None,
+                       "list_of_str": ["a", "b"]}[cl["fault"]]
+                if arrayish and cl["fault"] in ("inf", "-inf", "nan"):
+                    bad = np.array([bad, 1.0])
+                oc["fault"] = "no-converter" if "err" in mk else \
+                    ("returned" if "ok" in call(mk["ok"], bad) else "raised")
+                recheck("call %d (a faulty argument, %s)" % (j + 1, cl["fault"]))
+                continue
             if "err" in mk:
-                oc["ret"] = [mk] * len(cl.get("vs", cl.get("ks")))
-                oc["orig"] = cl.get("vs")
+                n_el = len(cl.get("vs", cl.get("ks", [])))
+                oc["ret"] = [mk] * n_el
+                oc["orig"] = cl.get("vs", [])
+                oc["ks"] = cl.get("ks", [])
+                oc["ctor_failed"] = True
                 continue
             conv = mk["ok"]
-            if kind in ("fp", "fix", "fp_float", "fix_float"):
-                xs = [from_dy(p) for p in cl["vs"]] if "vs" in cl else cl["ks"]
+            if not arrayish:
+                floats = "vs" in cl
+                xs = [from_dy(p) for p in cl["vs"]] if floats else cl["ks"]
                 oc["orig"] = cl.get("vs")
                 oc["ret"] = []
+                es = cl.get("es")
+                if es and not ((floats and scaled_finite(cl["vs"], fmt["frac"])) or
+                               (not floats and es == "warn_error" and -900 < fmt["frac"] < 1000)):
+                    es = None           # outside the property (scaled value not finite): numpy may warn / raise
+                oc["es"] = es
                 for x in xs:
-                    r = call(conv, x)
+                    a = value_arg(np, x, cl.get("vk"))
+                    with _Env(np, es):
+                        r = call(conv, **{argname: a}) if cl.get("kw") else call(conv, a)
                     if "ok" in r:
                         r = {"ok": int(r["ok"])} if kind in ("fp", "fix") else {"ok": canon_float(r["ok"])}
                     oc["ret"].append(r)
                 recheck("call %d (%s)" % (j + 1, kind))
                 continue
-            if kind == "np_fix":
+            if "again" in cl:
+                obj = passed.get(cl["again"])
+                if obj is None or not isinstance(obj, (np.ndarray, list)):
+                    oc["skipped"] = True
+                    oc["ret"], oc["orig"], oc["ks"] = [], [], []
+                    continue
+                if cl.get("edit"):
+                    # the caller edits the object it passed earlier, in place, and passes it again
+                    if isinstance(obj, list):
+                        if obj and isinstance(obj[0], list):
+                            obj[0][0] = 0.25
+                        elif obj:
+                            obj[0] = 0.25
+                        obj.reverse()
+                    elif obj.flags.writeable and obj.size:
+                        if kind == "np_fix":
+                            vals = np.asarray(obj, dtype=np.float64) * -0.5 + 1.0
+                            obj[...] = vals.astype(obj.dtype)
+                        else:
+                            obj[...] = obj // 2
+                        recheck("the caller editing, before call %d, the input object of call %d" % (j + 1, cl["again"] + 1))
+            elif kind == "np_fix":
                 obj = make_container(np, [from_dy(p) for p in cl["vs"]], cl["cont"])
+            else:
+                obj = int_container(np, cl["ks"], cl["cont"], getattr(np, NP_DTYPE[tuple(cl["dtype"])]))
+            passed[j] = obj
+            if kind == "np_fix":
                 orig = [float(x) for x in np.asarray(obj, dtype=np.float64).reshape(-1).tolist()]
                 oc["orig"] = [to_dy(x) for x in orig]
-                g = call(tc.float_to_fp, sp["fmt"]["signed"], sp["fmt"]["bits"], sp["fmt"]["frac"])
+                g = call(tc.float_to_fp, fmt["signed"], fmt["bits"], fmt["frac"])
                 oc["scalar"] = [call(g["ok"], x) if "ok" in g else g for x in orig]
                 oc["scalar"] = [{"ok": int(q["ok"])} if "ok" in q else q for q in oc["scalar"]]
             else:
-                obj = int_container(np, cl["ks"], cl["cont"], getattr(np, NP_DTYPE[tuple(cl["dtype"])]))
-                oc["ks"] = [int(v) for v in obj.reshape(-1).tolist()]
-                g = call(tc.fp_to_float, sp["fmt"]["frac"])
+                oc["ks"] = [int(v) for v in np.asarray(obj).reshape(-1).tolist()]
+                g = call(tc.fp_to_float, fmt["frac"])
                 oc["scalar"] = [call(g["ok"], k) if "ok" in g else g for k in oc["ks"]]
                 oc["scalar"] = [{"ok": canon_float(q["ok"])} if "ok" in q else q for q in oc["scalar"]]
-            r = call_keep(oc, "call %d" % (j + 1), conv, obj)
-            n_el = len(oc.get("orig") or oc.get("ks"))
+            es = cl.get("es")
+            if es and not ((kind == "np_fix" and scaled_finite(oc["orig"], fmt["frac"])) or
+                           (kind == "np_float" and es == "warn_error" and -900 < fmt["frac"] < 1000)):
+                es = None               # outside the property (scaled value not finite): numpy may warn / raise
+            oc["es"] = es
+            with _Env(np, es):
+                if cl.get("kw"):
+                    r = call_keep(oc, "call %d" % (j + 1), lambda o: conv(values=o), obj)
+                else:
+                    r = call_keep(oc, "call %d" % (j + 1), conv, obj)
+            n_el = len(oc["orig"] if kind == "np_fix" else oc["ks"])
             if "err" in r:
                 oc["ret"] = [r] * n_el
                 recheck("call %d raising" % (j + 1))
                 continue
             res = r["ok"]
             oc["ret"] = canon_list(res)
-            want_dt = np.dtype(NP_DTYPE[(sp["fmt"]["signed"], sp["fmt"]["bits"])]) if kind == "np_fix" else np.float64
+            want_dt = np.dtype(NP_DTYPE[(bool(fmt["signed"]), fmt["bits"])]) if kind == "np_fix" else np.float64
             oc["meta"] = bool(np.shape(res) == np.shape(obj) and np.asarray(res).dtype == want_dt)
-            recheck("call %d on the same converter object" % (j + 1) if True else "")
+            recheck("call %d on the same converter object" % (j + 1))
             if isinstance(res, np.ndarray):
                 if isinstance(obj, np.ndarray) and np.shares_memory(res, obj):
                     oc["alias"].append("its input")
@@ -1368,6 +1707,8 @@ def eval_reuse(ctx, cases):
         for cl, oc in zip(c["calls"], impl["calls"]):
             sp = c["convs"][cl["c"]]
             fmt, kind = sp["fmt"], sp["kind"]
+            if "fault" in oc or oc.get("skipped"):
+                continue
             if kind in ("np_fix", "fp", "fix"):
                 vs = oc["orig"]
                 op = {"np_fix": "np_float_to_fix", "fp": "float_to_fp", "fix": "float_to_fix"}[kind]
@@ -1382,23 +1723,24 @@ def eval_reuse(ctx, cases):
                     reqs.append(fmt_req(fmt, "spec_fp", vs=vs, rs=[q["ok"] for q in oc["now"]]))
                     idx.append((oc, "oracle_now"))
             elif kind == "np_float":
-                reqs.append({"suite": "c16", "op": "np_fix_to_float", "frac": fmt["frac"], "ks": oc.get("ks", cl["ks"])})
+                reqs.append({"suite": "c16", "op": "np_fix_to_float", "frac": fmt["frac"], "ks": oc.get("ks", cl.get("ks", []))})
                 idx.append((oc, "model"))
             elif kind == "fp_float":
-                reqs.append({"suite": "c16", "op": "fp_to_float", "frac": fmt["frac"], "ks": cl["ks"]})
+                reqs.append({"suite": "c16", "op": "fp_to_float", "frac": fmt["frac"], "ks": cl.get("ks", [])})
                 idx.append((oc, "model"))
             else:
-                reqs.append(fmt_req(fmt, "fix_to_float", ws=cl["ks"]))
+                reqs.append(fmt_req(fmt, "fix_to_float", ws=[int(k) for k in cl.get("ks", [])]))
                 idx.append((oc, "model"))
     for (d, what), r in zip(idx, ctx.lean(reqs)):
         d[what] = r
     for c in cases:
+        c["narrow_variant"] = var.get("narrow")
         judge_reuse(ctx, c)
 
 
 def judge_reuse(ctx, c):
     impl = c["impl"]
-    desc = {k: c[k] for k in ("kind", "convs", "calls", "mutate_result", "mutate_input")}
+    desc = {k: c[k] for k in ("kind", "convs", "calls", "mutate_result", "mutate_input", "twins", "scale") if k in c}
     ctx.traces += 1
     names = {"np_fix": "NumpyFloatToFixConverter", "np_float": "NumpyFixToFloatConverter", "fp": "float_to_fp",
              "fix": "float_to_fix", "fp_float": "fp_to_float", "fix_float": "fix_to_float"}
@@ -1408,8 +1750,45 @@ def judge_reuse(ctx, c):
     for j, (cl, oc) in enumerate(zip(c["calls"], impl["calls"])):
         sp = c["convs"][cl["c"]]
         fmt, kind = sp["fmt"], sp["kind"]
-        who = "%s %s (object %d of [%s], call %d of %d)" % (names[kind], describe(fmt), cl["c"] + 1, objs, j + 1,
-                                                           len(c["calls"]))
+        who = "%s %s (object %d of [%s], call %d of %d%s)" % (
+            names[kind], describe(fmt), cl["c"] + 1, objs, j + 1, len(c["calls"]),
+            "".join(", %s=%s" % (k, v) for k, v in (("params", sp.get("pk")), ("ctor-keywords", sp.get("kw")),
+                                                    ("value-kind", cl.get("vk")), ("container", cl.get("cont")),
+                                                    ("keyword-call", cl.get("kw")), ("numpy-errors", cl.get("es")),
+                                                    ("same-object-as-call", cl.get("again"))) if v not in (None, False)))
+        if "fault" in oc:
+            ctx.tag("reuse_fault_%s_%s" % (cl["fault"], oc["fault"]))
+            continue
+        if oc.get("skipped"):
+            ctx.tag("reuse_again_skipped")
+            continue
+        for k in ("vk", "cont"):
+            if cl.get(k):
+                ctx.tag("reuse_%s_%s" % (k, cl[k]))
+        if cl.get("es"):
+            ctx.tag("reuse_es_%s%s" % (cl["es"], "" if oc.get("es", cl["es"]) else "_not_applied"))
+        if cl.get("kw"):
+            ctx.tag("reuse_keyword_call")
+        if "again" in cl:
+            ctx.tag("reuse_same_object_again" + ("_edited" if cl.get("edit") else ""))
+        if sp.get("pk"):
+            ctx.tag("reuse_params_" + sp["pk"])
+        if sp.get("kw"):
+            ctx.tag("reuse_ctor_keywords")
+        if oc.get("ctor_failed"):
+            ctx.tag("reuse_ctor_" + oc["ret"][0]["err"] if oc["ret"] else "reuse_ctor_failed")
+        tag_only = None
+        if sp.get("pk") in NUMPY_PARAM:
+            tag_only = "reuse_numpy_int_params_differ"      # numpy ints as n_bits / n_frac: not in the property text
+        if cl.get("cont") in ("f32", "f16") and c.get("narrow_variant") != "float64":
+            tag_only = "reuse_narrow_input_on_unfixed_code"
+        if tag_only:
+            ms = [canon_model_float(m) if kind in ("np_float", "fp_float", "fix_float") else m for m in oc["model"]]
+            if any(a != m for a, m in zip(oc["ret"], ms) if m.get("ok") != "unspecified" and m.get("err") != "domain"):
+                ctx.tag(tag_only)
+            if oc.get("changed"):
+                ctx.violation("array-result-overwritten", "%s: the returned array changed after %s" % (who, oc["changed"]), desc)
+            continue
         inputs = oc.get("orig") if kind in ("np_fix", "fp", "fix") else oc.get("ks", cl.get("ks"))
         shown = [from_dy(p) for p in inputs] if kind in ("np_fix", "fp", "fix") else inputs
         floaty = kind in ("np_float", "fp_float", "fix_float")
@@ -1421,7 +1800,7 @@ def judge_reuse(ctx, c):
                 continue
             if a != m:
                 if "err" in a and "ok" in m:
-                    ctx.violation("exception-in-domain", "%s raised %s for %r; the rule gives %r" % (
+                    ctx.violation(exc_key(a), "%s raised %s for %r; the rule gives %r" % (
                         who, a["err"], shown[i], m["ok"]), desc)
                 elif floaty and "ok" in a and "ok" in m:
                     ctx.violation("to-float-ne-scalar-sequence", "%s returned %r for %r; value * 2^-n_frac is %r" % (
@@ -1469,7 +1848,186 @@ def judge_reuse(ctx, c):
         ctx.tag("reuse_same_shape_same_converter")
     if len(c["convs"]) > 1:
         ctx.tag("reuse_several_converters")
+    if c.get("scale"):
+        ctx.tag("scale_scalar_%s_bits_%d" % (c["convs"][0]["kind"], c["convs"][0]["fmt"]["bits"]))
+    if c.get("twins"):
+        ctx.tag("reuse_twins")
     ctx.case(desc, same_shape_again or len(c["convs"]) > 1)
+
+
+# ---------------------------------------------------------------- scale: far beyond the usual sizes
+SCALE_SIZES = [257, 65537, 2 * 65536 + 1, 10 ** 6]
+
+
+def gen_scale_case(rng, size=None):
+    """an array of 257 / 65,537 / 131,073 / 10^6 elements made of a small block of values repeated (rolled by an
+    offset): the block is checked against the model, the large result against the block's result"""
+    kind = rng.choice(["np_fix", "np_fix", "np_float"])
+    sp = gen_reuse_spec(rng, kind)
+    sp.pop("pk", None)
+    fmt = sp["fmt"]
+    c = {"kind": "scale", "conv": sp, "size": size or rng.choice(SCALE_SIZES), "roll": rng.randrange(0, 48),
+         "layout": rng.choice(["1d", "col", "row", "2d", "f2d"])}
+    if kind == "np_fix":
+        c["vs"] = [to_dy(x) for x in gen_values(rng, fmt, 48)]
+    else:
+        ds, db = rng.choice(sorted(NP_DTYPE))
+        c["dtype"] = [ds, db]
+        c["ks"] = gen_ints_in(rng, {"signed": ds, "bits": db}, 48)
+    return c
+
+
+def gen_scale_scalar_case(rng):
+    """formats far wider than any machine word and integers far beyond 2^64 for the scalar closures (a `reuse` case)"""
+    bits = rng.choice([257, 1000, 4096, 65537, 100000])
+    signed = rng.random() < 0.5
+    frac = rng.choice([0, 3, bits - 1, bits // 2, -3, 1000, 1023])
+    r = rng.random()
+    if r < 0.6:
+        sp = {"kind": "fp", "fmt": {"signed": signed, "bits": bits, "frac": frac}}
+        xs = [math.ldexp(1.0, 1000), -math.ldexp(1.0, 1000), 0.75, -0.75, 1.7976931348623157e308, 5e-324, -3.5,
+              math.ldexp(1.0, bits - frac - 1) if -1070 < bits - frac - 1 < 1023 else 1.0]
+        xs = [x for x in xs if math.isfinite(x)]
+        calls = [{"c": 0, "cont": "list", "vs": [to_dy(x) for x in xs]}]
+    else:
+        frac = rng.choice([0, 4, 1000, 1074, -10, -1000])
+        sp = {"kind": "fp_float", "fmt": {"signed": signed, "bits": bits, "frac": frac}}
+        ks = [2 ** 1023, 2 ** 1024, -(2 ** 1024), 2 ** 1024 - 2 ** 970, 2 ** 5000, 10 ** 400, -(10 ** 400), 2 ** 100 + 1,
+              2 ** 64, 2 ** 63, 0]
+        calls = [{"c": 0, "ks": ks}]
+    return {"kind": "reuse", "convs": [sp], "calls": calls, "mutate_result": [], "mutate_input": [], "scale": True}
+
+
+def impl_scale(case):
+    import numpy as np
+    from rig import type_casts as tc
+    sp = case["conv"]
+    fmt, kind = sp["fmt"], sp["kind"]
+    out = {}
+    with np.errstate(all="ignore"):
+        if kind == "np_fix":
+            mk = call(tc.NumpyFloatToFixConverter, fmt["signed"], fmt["bits"], fmt["frac"])
+            block = np.array([from_dy(p) for p in case["vs"]], dtype=np.float64)
+        else:
+            mk = call(tc.NumpyFixToFloatConverter, fmt["frac"])
+            block = np.array(case["ks"], dtype=getattr(np, NP_DTYPE[tuple(case["dtype"])]))
+        if "err" in mk:
+            out["block"] = [mk] * len(block)
+            return out
+        conv = mk["ok"]
+
+        def canon(res):
+            flat = np.asarray(res).reshape(-1).tolist()
+            return [{"ok": int(v)} if kind == "np_fix" else {"ok": canon_float(v)} for v in flat]
+
+        r = call_keep(out, "the block", conv, block)
+        if "err" in r:
+            out["block"] = [r] * len(block)
+            return out
+        bres = np.asarray(r["ok"])
+        out["block"] = canon(bres)
+        n = case["size"]
+        big = np.resize(np.roll(block, case["roll"]), n)
+        want = np.resize(np.roll(bres.reshape(-1), case["roll"]), n)
+        lay = case["layout"]
+        if lay == "col":
+            big = big.reshape(n, 1)
+        elif lay == "row":
+            big = big.reshape(1, n)
+        elif lay in ("2d", "f2d"):
+            k = 257 if n % 257 == 0 else 1
+            big = big.reshape(n // k, k)
+            if lay == "f2d":
+                big = np.asfortranarray(big)
+        r = call_keep(out, "the %d-element array" % n, conv, big)
+        if "err" in r:
+            out["big"] = r
+            return out
+        res = np.asarray(r["ok"])
+        out["meta"] = bool(res.shape == big.shape and res.dtype == bres.dtype)
+        flat = res.reshape(-1)
+        if flat.shape == want.shape:
+            if kind == "np_fix":
+                bad = np.nonzero(flat != want)[0]
+            else:
+                bad = np.nonzero(flat.view(np.uint64) != want.view(np.uint64))[0] if flat.dtype == np.float64 \
+                    else np.arange(len(flat))
+            if len(bad):
+                i = int(bad[0])
+                out["diff"] = {"index": i, "count": int(len(bad)), "input": canon_float(float(big.reshape(-1)[i]))
+                               if kind == "np_fix" else int(big.reshape(-1)[i]),
+                               "got": canon([flat[i]])[0], "want": canon([want[i]])[0]}
+        else:
+            out["meta"] = False
+    return out
+
+
+def eval_scale(ctx, cases):
+    reqs, idx = [], []
+    var = ctx.extra.get("code_variant") or detect_variant(ctx)
+    for c in cases:
+        c["impl"] = impl = impl_scale(c)
+        fmt, kind = c["conv"]["fmt"], c["conv"]["kind"]
+        if kind == "np_fix":
+            reqs.append(fmt_req(fmt, "np_float_to_fix", vs=c["vs"], repaired=var.get("np") == "repaired"))
+            idx.append((c, "model"))
+            sel = [i for i, r in enumerate(impl["block"]) if "ok" in r]
+            c["sel"] = sel
+            reqs.append(fmt_req(fmt, "spec_fp", vs=[c["vs"][i] for i in sel], rs=[impl["block"][i]["ok"] for i in sel]))
+            idx.append((c, "oracle"))
+        else:
+            reqs.append({"suite": "c16", "op": "np_fix_to_float", "frac": fmt["frac"], "ks": c["ks"]})
+            idx.append((c, "model"))
+    for (d, what), r in zip(idx, ctx.lean(reqs)):
+        d[what] = r
+    for c in cases:
+        judge_scale(ctx, c)
+
+
+def judge_scale(ctx, c):
+    impl = c["impl"]
+    fmt, kind = c["conv"]["fmt"], c["conv"]["kind"]
+    desc = {k: c[k] for k in c if k in ("kind", "conv", "size", "roll", "layout", "vs", "ks", "dtype")}
+    name = "NumpyFloatToFixConverter" if kind == "np_fix" else "NumpyFixToFloatConverter"
+    who = "%s %s on %d elements (%s)" % (name, describe(fmt), c["size"], c["layout"])
+    ctx.traces += 1
+    inputs = c.get("vs") or c.get("ks")
+    for i, (a, m) in enumerate(zip(impl["block"], c["model"])):
+        if kind == "np_float":
+            m = canon_model_float(m)
+        if m.get("ok") == "unspecified" or m.get("err") == "domain":
+            continue
+        if a != m:
+            if "err" in a and "ok" in m:
+                ctx.violation(exc_key(a), "%s raised %s for %r; the rule gives %r" % (who, a["err"], inputs[i], m["ok"]), desc)
+            ctx.mismatch("c16.scale", "%s input=%r impl=%r model=%r" % (who, inputs[i], a, m), desc)
+            break
+    for jj, ok in enumerate(c.get("oracle", [])):
+        if not ok:
+            i = c["sel"][jj]
+            ctx.violation("array-rule", "%s: block element %r -> %r violates the conversion rule" % (
+                who, from_dy(inputs[i]), impl["block"][i]["ok"]), desc)
+            break
+    if "big" in impl:
+        a = impl["big"]
+        if "ok" in impl["block"][0]:
+            ctx.violation(exc_key(a), "%s raised %s although the same values convert as a %d-element array" % (
+                who, a["err"], len(inputs)), desc)
+    if impl.get("diff"):
+        d = impl["diff"]
+        ctx.violation("array-ne-scalar-large",
+                      "%s: element %d (input %r) is %r, but the same value in a %d-element array (checked against the "
+                      "Lean model and rule) converts to %r; %d elements differ" % (
+                          who, d["index"], from_dy(d["input"]) if kind == "np_fix" else d["input"], d["got"].get("ok"),
+                          len(inputs), d["want"].get("ok"), d["count"]), desc)
+    if impl.get("meta") is False:
+        ctx.violation("array-shape-dtype", "%s changed shape / dtype" % who, desc)
+    if impl.get("input_modified"):
+        ctx.violation("array-input-modified", "%s changed the caller's input: %s" % (who, impl["input_modified"][:300]), desc)
+    ctx.tag("scale_%d" % c["size"])
+    ctx.tag("scale_layout_" + c["layout"])
+    ctx.tag("scale_" + kind)
+    ctx.case(desc, True)
 
 
 def eval_cases(ctx, cases):
@@ -1478,6 +2036,7 @@ def eval_cases(ctx, cases):
     narrow = [c for c in cases if c["kind"] == "narrow"]
     seqs = [c for c in cases if c["kind"] == "seq"]
     reuse = [c for c in cases if c["kind"] == "reuse"]
+    scale = [c for c in cases if c["kind"] == "scale"]
     for i in range(0, len(conv), 1500):
         eval_conv(ctx, conv[i:i + 1500])
     for i in range(0, len(inv), 1500):
@@ -1488,6 +2047,10 @@ def eval_cases(ctx, cases):
         eval_seq(ctx, seqs[i:i + 1500])
     for i in range(0, len(reuse), 1500):
         eval_reuse(ctx, reuse[i:i + 1500])
+    for i in range(0, len(scale), 8):
+        eval_scale(ctx, scale[i:i + 8])
+        for c in scale[i:i + 8]:
+            c.pop("impl", None)
 
 
 FIXED = [
@@ -1571,6 +2134,8 @@ def run(ctx):
     cases += [gen_narrow_case(rng) for _ in range(n_narrow)]
     cases += [gen_seq_case(rng) for _ in range(n_seq)]
     cases += [gen_reuse_case(rng) for _ in range(n_reuse)]
+    cases += [gen_scale_case(rng, size) for size in SCALE_SIZES] + [gen_scale_case(rng) for _ in range(ctx.scale(2, 36))]
+    cases += [gen_scale_scalar_case(rng) for _ in range(ctx.scale(6, 60))]
     if not ctx.quick or ctx.extended:
         # all boundary neighbourhoods of every (signed, bits, frac)
         for signed in (True, False):
